@@ -1,5 +1,6 @@
 """C05 - flattening delivers every inner item once and honours the concurrency limit."""
 from common import *
+import xcheck
 import ileave2
 
 COLD = ["(coldi c)", "(coldi (n 1) c)", "(coldi (n 1) (n 2) c)", "(coldi (n 1))", "(coldi (n 1) (e 5) (n 2))", "(coldi (n 1) c (n 3) c)"]
@@ -85,7 +86,8 @@ def run(tier, seed, replay=None):
             if line.strip():
                 corpus.append(("c%d" % k, re.sub(r"^\(case \S+", "(case c%d" % k, line.strip()), {"class": "corpus"}))
     cases = load_replay_case(replay) if replay else corpus + make_cases(tier, rng) + ileave2.cases(tier, rng, kinds=("flat",))
-    correspond(rep, "C05", cases, "C05_limit / C05_downstream_wf / C05_no_stuck / C05_done_not_early / C05_done_not_late (flatten model)")
+    res = correspond(rep, "C05", cases, "C05_limit / C05_downstream_wf / C05_no_stuck / C05_done_not_early / C05_done_not_late (flatten model)")
+    xcheck.cross_check(rep, "C05", cases, res, 40 if tier == "quick" else 400)
     c = rep.coverage
     hist = {}
     for _, _, t in cases:
